@@ -99,6 +99,7 @@ type Result struct {
 	Goroutines  []string   `json:"goroutines,omitempty"` // go-plugin goroutines left in the host
 	SyncOut     string     `json:"sync_out,omitempty"`
 	SyncErr     string     `json:"sync_err,omitempty"`
+	PluginLog   string     `json:"plugin_log,omitempty"` // tail of the plugin's raw stderr (ClientConfig.Stderr), for diagnosis
 	Protocol    string     `json:"protocol,omitempty"`
 	Version     int        `json:"version"`
 	Env         []string   `json:"env,omitempty"`
@@ -191,6 +192,7 @@ func RunCell(c *Cell) (res *Result) {
 	os.MkdirAll(pluginDir, 0o755)
 	hostTmp := os.Getenv("TMPDIR")
 	so, se := &lockedBuf{}, &lockedBuf{}
+	plog := &lockedBuf{}
 
 	var lastCmd *exec.Cmd
 	mkCmd := func() *exec.Cmd {
@@ -214,6 +216,7 @@ func RunCell(c *Cell) (res *Result) {
 			Logger:              hclog.NewNullLogger(),
 			SyncStdout:          so,
 			SyncStderr:          se,
+			Stderr:              plog,
 			SkipHostEnv:         c.Host.SkipHostEnv,
 			GRPCBrokerMultiplex: c.Host.Mux,
 		}
@@ -617,6 +620,11 @@ func RunCell(c *Cell) (res *Result) {
 		res.ExitMarker = err == nil
 	}
 	res.SyncOut, res.SyncErr = so.String(), se.String()
+	if pl := plog.String(); len(pl) > 3000 {
+		res.PluginLog = pl[len(pl)-3000:]
+	} else {
+		res.PluginLog = pl
+	}
 	return res
 }
 
